@@ -85,7 +85,7 @@ Fixpoint assoc_v (k : str) (m : list (str * value)) : option value :=
    [veqd sw a b] is structurally recursive on a and computes equal(a,b) for sw = false and
    equal(b,a) for sw = true; in the second case the entries of b are visited and looked up in a
    (the inner [find] returns the comparison on the entry of a directly, so that the recursion stays
-   structural).  Sem/OpsProofs.v proves veqd true a b = veqd false b a and the unfolding equations
+   structural).  Sem/OpsLaws.v proves veqd true a b = veqd false b a and the unfolding equations
    veq_list_eq / veq_map_eq, which read exactly like the Go code. *)
 Fixpoint veqd (sw : bool) (a b : value) {struct a} : res bool :=
   match a, b with
